@@ -329,7 +329,7 @@ def stage_mech_eliasfano(chk):
 
 
 def check_C05(chk):
-    bins = vlib.build_harness(["dbg-native"])
+    bins = vlib.build_harness(["dbg-native", "rel-native"])
     stage_mech_rawvec(chk)
     if chk.thorough:
         stage_gen_vec(chk, bins, "int", "{1, 7, 31, 32, 33, 63, 64}", 2, 4)
@@ -346,6 +346,8 @@ def check_C05(chk):
     stage_life(chk, bins, "C05", ["mut:", "to:int>raw", "to:plain>raw", "to:raw>raw", "clone:raw", "clone:int"], ops='{"mut", "to", "clone", "reload"}', kinds='{"raw", "int", "plain"}',
                maxlen=4 if chk.thorough else 3, scales=(1, 3, 64, 65, 130), walks=400 if chk.thorough else 60, walk_depth=14)
     stage_trace(chk, bins, "vec", "TraceVec", invariants=("StateOK",), seeds=4 if chk.thorough else 1)
+    # beyond 2^32 bits: the counts of a 512 MiB vector through a short history and the routes into and out of a plain bitvector (optimized build)
+    stage_trace(chk, bins, "giant", "TraceGiant", invariants=("CountsOK",), variant="rel-native")
     return chk.finish(rule="cases = call histories of IntVector / RawVector; after every call the result, the projected content, equality and "
                            "byte-identity with a canonically built vector and count_ones are compared with the Layer A state machine; "
                            "distinct = distinct history prefixes")
